@@ -321,10 +321,22 @@ GaussSum(x, amp, mean, sd, i) ==
   IF i > Len(amp) THEN N0
   ELSE NAdd(NMul(NFromStr(amp[i]), NExp(NNeg(NDiv(NSq(NSub(x, NFromStr(mean[i]))), NMul(N2, NSq(NFromStr(sd[i]))))))),
             GaussSum(x, amp, mean, sd, i + 1))
+\* exact_u = sum_i amp_i (Phi((x - mean_i)/stdev_i) - Phi(-mean_i/stdev_i)),  Phi(z) = (1 + erf z)/2  (the form of the pinned
+\* eval_exact_u, a frozen form like the ablation sources: it is NOT the integral over [0, x] of the Gaussians source_u sums,
+\* see DESIGN.md section 12); for x > 1000 the first Phi is replaced by 1; -1 for x <= 0 or vectors of different lengths
+Phi(z) == NMul(Half, NAdd(N1, NErf(z)))
+RECURSIVE PhiSum(_, _, _, _, _)
+PhiSum(x, amp, mean, sd, i) ==
+  IF i > Len(amp) THEN N0
+  ELSE LET m == NFromStr(mean[i]) s == NFromStr(sd[i])
+           up == IF NLt(NFromInt(1000), x) THEN N1 ELSE Phi(NDiv(NSub(x, m), s))
+       IN  NAdd(NMul(NFromStr(amp[i]), NSub(up, Phi(NDiv(NNeg(m), s)))), PhiSum(x, amp, mean, sd, i + 1))
 Radiation(vec, fn, a) ==
-  IF fn # "source_u" THEN Undefined
+  IF fn \notin {"source_u", "exact_u"} THEN Undefined
   ELSE IF Len(vec["vec_amp"]) # Len(vec["vec_mean"]) \/ Len(vec["vec_amp"]) # Len(vec["vec_stdev"]) THEN NNeg(N1)
-  ELSE GaussSum(NFromStr(a[1]), vec["vec_amp"], vec["vec_mean"], vec["vec_stdev"], 1)
+  ELSE IF fn = "source_u" THEN GaussSum(NFromStr(a[1]), vec["vec_amp"], vec["vec_mean"], vec["vec_stdev"], 1)
+  ELSE IF NLe(NFromStr(a[1]), N0) THEN NNeg(N1)
+  ELSE PhiSum(NFromStr(a[1]), vec["vec_amp"], vec["vec_mean"], vec["vec_stdev"], 1)
 
 \* ------------------------------------------------------------------ ablation (not named by C01-C08: growth)
 \* the exact fields (forms frozen from the pinned eval_exact_* bodies) and, for accuracy only, the source terms
@@ -337,7 +349,9 @@ Ablation(par, fn, a, cb) ==
       \* Source terms: there is no documented system to derive them from (the momentum source uses the density of an
       \* N/N2 mixture, the pressure that of C/C3), so -- unlike everywhere else -- these are the forms of the pinned
       \* eval_q_* bodies, written out once more.  They decide nothing about C01-C08; they give C09 (accuracy in both
-      \* precisions) and C10/C11 a 45-digit reference for this solution too.  source_rho_e is not transcribed.
+      \* precisions) and C10/C11 a 45-digit reference for this solution too.  source_rho_e is written as the operator
+      \* it expands: d/dx[rho U (R T/(Gamma-1) + U^2/2)] + d/dx[P U] - d/dx[4/3 mu U U_x] - k T_xx, where -- as in the pinned
+      \* body -- the density's VALUE is that of the N/N2 mixture and its DERIVATIVE that of C/C3 (the hybrid jet rhoH).
       U   == JAdd(JConst(PN(par, "u_0")), wav("u_x", "a_ux", "sin"))
       T   == JAdd(JConst(PN(par, "T_0")), wav("T_x", "a_Tx", "cos"))
       rN  == JAdd(JConst(PN(par, "rho_N_0")), wav("rho_N_x", "a_rho_N_x", "sin"))
@@ -354,7 +368,13 @@ Ablation(par, fn, a, cb) ==
       Mdot == JScale(NMul(NMul(NSqrtL(N2), Half), PN(par, "beta_C3")),
                      JMul(JMul(JSqrt(JScale(NDiv(NDiv(PN(par, "k_B"), NPi), PN(par, "m_C3")), T)), JSub(MFE, MF)), rho))
       Dd  == NSub(PN(par, "D_C"), PN(par, "D_C3"))
+      rhoH == <<JV(JAdd(rN, rN2)), rho[2], Zero10>>
+      et  == JAdd(JScale(NDiv(R, NSub(PN(par, "Gamma"), N1)), T), JScale(Half, JSq(U)))
   IN  CASE fn = "exact_u" -> JV(U)
+        [] fn = "source_rho_e" ->
+             NSub(NSub(NAdd(JG(JMul(JMul(rhoH, U), et), 1), JG(JMul(P, U), 1)),
+                       NMul(NMul(NFromRat(4, 3), PN(par, "mu")), JG(JMul(U, JD(U, 1)), 1))),
+                  NMul(PN(par, "k"), JH(T, 1, 1)))
         [] fn = "exact_t" -> JV(T)
         [] fn = "exact_rho_C" -> JV(rC) [] fn = "exact_rho_C3" -> JV(rC3) [] fn = "exact_rho" -> JV(JAdd(rC, rC3))
         [] fn = "source_rho_C"  -> JV(JScale(kap("rho_C_x", "a_rho_C_x"), JMul(U, JCos(arg("a_rho_C_x")))))
